@@ -639,3 +639,19 @@ package gorm
 //@   entry limitedTo1 == 0 && orderedByPK == 0 && orderedByPKDesc == 0
 //@   assert one-row: limitedTo1 != 0 && ref(arg1) == limitedTo1 [C15]
 //@   assert not-found-is-an-error: arg1.Statement.RaiseErrorOnNotFound [C15]
+
+//@ # ---------- C06/C19: what running a pipeline leaves behind on the statement ----------
+//@ # After a real run the built text and bound values are cleared (the same chain can be executed again and
+//@ # builds afresh); a dry run keeps them for the caller to read. Clause order borrowed from the processor is
+//@ # returned.
+//@ func (*processor).Execute
+//@   tags C06 C19
+//@   ensures real-run-clears-the-bound-values: !result.Statement.DB.Config.DryRun ==> result.Statement.Vars == nil [C06]
+//@   ensures real-run-clears-the-built-text: !result.Statement.DB.Config.DryRun ==> textCleared == 1 [C06]
+//@ ghost textCleared
+//@ event call strings.(*Builder).Reset
+//@   in gorm.(*processor).Execute
+//@   do textCleared = 1
+//@ event callparam *
+//@   in gorm.(*processor).Execute
+//@   do textCleared = 0
